@@ -220,6 +220,8 @@ def check_step(rec, tracker, mdib):
                 dh = dict(c[1]).get('DescriptorHandle')
                 if dh in deleted_handles:
                     continue
+                if key[0] == 'c' and ('d', dh) in reported:
+                    continue  # a context state dropped by writing its (updated) descriptor entity: reported implicitly
             return ('object-changed-but-not-part-of-transaction', f'{key[0]}', {'key': key,
                                                                                'reported': sorted(map(str, reported))[:8]})
     ref = canon.referential(mdib)
@@ -270,6 +272,11 @@ def run(ctx):
     jobs += [pre + [t] for pre in PRE_STATES for t in txs]
     core = A.CORE
     jobs += [[t, e] for t in txs for e in core]
+    # stale entity copies: read an entity, commit something else, then write the old copy (also twice in a row)
+    for h, w in (('CH', 'write-stashed(CH)'), ('N1', 'write-stashed(N1)'), ('PAT', 'write-stashed(PAT)'),
+                 ('N1', 'write-stashed-state(N1,8)')):
+        jobs += [[f'stash({h})', e, w] for e in names + txs[:20]]
+        jobs += [[f'stash({h})', w, w], [f'stash({h})', w, 'update-descr(CH)', w]]
     if not ctx.quick:
         jobs += hist.sequences(core, 3)
         jobs += [[t1, t2] for t1 in txs for t2 in txs]
